@@ -157,3 +157,30 @@ def n4(spec, k=0):
 
 
 FUNCS = {"n0": n0, "n1": n1, "n2": n2, "n3": n3, "n4": n4}
+
+
+# ---- partitions with merge parents (C17) -------------------------------------------------
+def _part_value(v):
+    """value descriptor for a partition member: small ints / strings / arrays"""
+    return make_value(v)
+
+
+@memento_function(cluster=CL, version="1")
+def pnode(spec):
+    """spec: {"id", "own": [[key, value-descriptor]...], "parent": spec or None, "ondisk": bool}"""
+    from twosigma.memento.partition import InMemoryPartition
+    from twosigma.memento.storage_filesystem import OnDiskPartition
+    _trace(("exec", "pnode", spec.get("id"), None))
+    parent = pnode(spec["parent"]) if spec.get("parent") else None
+    if spec.get("ondisk"):
+        p = OnDiskPartition()
+        for k, v in spec["own"]:
+            p[k] = _part_value(v)
+    else:
+        p = InMemoryPartition({k: _part_value(v) for k, v in spec["own"]})
+    if parent is not None:
+        p._merge_parent = parent
+    return p
+
+
+FUNCS["pnode"] = pnode
